@@ -83,3 +83,10 @@ CASES += [
          old="      return mDestCont.find( value) != mDestCont.end();\n   } // ContainerAdapter< std::set< T>>::contains",
          new="      mDestCont.erase( mDestCont.begin(), mDestCont.begin());\n      return mDestCont.find( value) != mDestCont.end();\n   } // ContainerAdapter< std::set< T>>::contains"),
 ]
+
+CASES += [
+    dict(id='c06-unique-not-for-sorted', prop='C06', file='src/celma/prog_args/detail/typed_arg.hpp', expect='R6',
+         old="     mUniqueData = true;\n     mTreatDuplicatesAsErrors = duplicates_are_errors;\n     return this;", new="     mUniqueData = !dest_type_t::IsSorted;\n     mTreatDuplicatesAsErrors = duplicates_are_errors;\n     return this;"),
+    dict(id='c06-eq-unique-from-trait-in-guard', prop='C06', file='src/celma/prog_args/detail/typed_arg.hpp', expect=None,
+         old="     mUniqueData = true;\n     mTreatDuplicatesAsErrors = duplicates_are_errors;\n     return this;", new="     mUniqueData = dest_type_t::HasIterators;\n     mTreatDuplicatesAsErrors = duplicates_are_errors;\n     return this;"),
+]
